@@ -677,14 +677,14 @@ class OrConstraint(AbstractConstraint):
 class _ConstrainedValue(Value):
     """Helper class, only used within a FunctionScope."""
 
-    definition_nodes: frozenset[Node]
+    definition_nodes: tuple[Node, ...]
     constraints: Sequence[Constraint]
     resolution_cache: dict[_LookupContext, Value] = field(
         default_factory=dict, init=False, compare=False, hash=False, repr=False
     )
 
 
-_empty_constrained = _ConstrainedValue(frozenset(), [])
+_empty_constrained = _ConstrainedValue((), [])
 
 
 @dataclass
@@ -1009,8 +1009,8 @@ class FunctionScope(Scope):
     name_to_current_definition_nodes: SubScope
     usage_to_definition_nodes: dict[tuple[Node, Varname], list[Node]]
     definition_node_to_value: dict[Node, Value]
-    name_to_all_definition_nodes: dict[Varname, set[Node]]
-    name_to_composites: dict[Varname, set[CompositeVariable]]
+    name_to_all_definition_nodes: dict[Varname, dict[Node, None]]
+    name_to_composites: dict[Varname, dict[CompositeVariable, None]]
     referencing_value_vars: dict[Varname, Value]
     accessed_from_special_nodes: set[Varname]
     current_loop_scopes: list[SubScope]
@@ -1031,8 +1031,8 @@ class FunctionScope(Scope):
         self.name_to_current_definition_nodes = defaultdict(list)
         self.usage_to_definition_nodes = defaultdict(list)
         self.definition_node_to_value = {_UNINITIALIZED: _empty_constrained}
-        self.name_to_all_definition_nodes = defaultdict(set)
-        self.name_to_composites = defaultdict(set)
+        self.name_to_all_definition_nodes = defaultdict(dict)
+        self.name_to_composites = defaultdict(dict)
         self.referencing_value_vars = defaultdict(lambda: UNINITIALIZED_VALUE)
         # Names that are accessed from a None node context (e.g., from a nested function). These
         # are ignored when looking at unused variables.
@@ -1071,7 +1071,7 @@ class FunctionScope(Scope):
                 return
 
         varname = constraint.varname.get_varname()
-        def_nodes = frozenset(self.name_to_current_definition_nodes[varname])
+        def_nodes = tuple(dict.fromkeys(self.name_to_current_definition_nodes[varname]))
         # We set both a constraint and its inverse using the same node as the definition
         # node, so cheat and include the constraint itself in the key.
         node = (node, constraint)
@@ -1097,7 +1097,7 @@ class FunctionScope(Scope):
             else:
                 val = self.definition_node_to_value[definer]
                 if isinstance(val, _ConstrainedValue):
-                    pending |= val.definition_nodes
+                    pending.update(val.definition_nodes)
                 else:
                     out.add(definer)
         if not out:
@@ -1124,7 +1124,7 @@ class FunctionScope(Scope):
             # After we assign to a variable, reset any constraints on its
             # members.
             self.name_to_current_definition_nodes[composite] = []
-        self.name_to_all_definition_nodes[varname].add(node)
+        self.name_to_all_definition_nodes[varname][node] = None
         for recorder in self.assignment_recorders:
             recorder.setdefault(varname, []).append(node)
         self._add_composite(varname)
@@ -1195,10 +1195,10 @@ class FunctionScope(Scope):
                 return EMPTY_ORIGIN
         return self._resolve_origin(definers)
 
-    def get_all_definition_nodes(self) -> dict[Varname, builtins.set[Node]]:
+    def get_all_definition_nodes(self) -> dict[Varname, dict[Node, None]]:
         """Return a copy of name_to_all_definition_nodes."""
         return {
-            key: set(nodes) for key, nodes in self.name_to_all_definition_nodes.items()
+            key: dict(nodes) for key, nodes in self.name_to_all_definition_nodes.items()
         }
 
     @contextlib.contextmanager
@@ -1240,7 +1240,7 @@ class FunctionScope(Scope):
         }
         with self.subscope() as dummy_subscope:
             pass
-        all_keys = set(rest_scope) | set(dummy_subscope)
+        all_keys = dict.fromkeys(chain(rest_scope, dummy_subscope))
         new_scope = {
             key: [*dummy_subscope.get(key, []), *rest_scope.get(key, [])]
             for key in all_keys
@@ -1292,7 +1292,7 @@ class FunctionScope(Scope):
                 new_scopes.append(scope)
         if not new_scopes:
             return {LEAVES_SCOPE: []}
-        all_variables = set(chain.from_iterable(new_scopes))
+        all_variables = dict.fromkeys(chain.from_iterable(new_scopes))
         return {
             varname: uniq_chain(
                 scope.get(varname, [_UNINITIALIZED]) for scope in new_scopes
@@ -1369,13 +1369,13 @@ class FunctionScope(Scope):
 
     def _add_composite(self, varname: Varname) -> None:
         if isinstance(varname, CompositeVariable):
-            self.name_to_composites[varname.varname].add(varname)
+            self.name_to_composites[varname.varname][varname] = None
             if len(varname.attributes) > 1:
                 for i in range(1, len(varname.attributes)):
                     composite = CompositeVariable(
                         varname.varname, varname.attributes[:i]
                     )
-                    self.name_to_composites[composite].add(varname)
+                    self.name_to_composites[composite][varname] = None
 
     def items(self) -> Iterable[tuple[Varname, Value]]:
         raise NotImplementedError
